@@ -23,7 +23,7 @@ DEC = "nintendo_lz::decompress_arr"
 
 def run(facts, rep, ctx):
     R1 = rep.rule("R11.1", "dispatch: CompressionFormat variant -> the matching format's method; LZ13 first byte 0 / 0x13 / other -> stored / wrapper stripped / bare", floor=9)
-    R2 = rep.rule("R11.2", "the caller's bytes are never indexed or sliced without a dominating length test", floor=3)
+    R2 = rep.rule("R11.2", "the caller's bytes are never indexed or sliced without a dominating length test", floor=2)
     R3 = rep.rule("R11.3", "the delegated decoder has no definite panic pattern on input-derived values, or its call sites are guarded", floor=2)
     R4 = rep.rule("R11.4", "decoder errors are mapped to CompressionError::InvalidInput, never unwrapped", floor=2)
     dispatch(facts, rep, R1)
@@ -151,6 +151,57 @@ def length_guard(b, bb, param):
     return best
 
 
+def first_byte_tests(p, param=2):
+    """[(value, holds)] for every test of input byte 0 on the path: `bytes[0] == K` comparisons and the arms of
+    a `match` on the byte itself (slice patterns)."""
+    out = []
+    for (bb, term, vals, neg, dty) in p.conds:
+        ct = cond_truth((term, vals, neg, dty))
+        if ct and ct[0][0] == "bin" and ct[0][1] in ("Eq", "Ne") and ct[0][3][0] == "const" and is_byte0(ct[0][2], param):
+            out.append((ct[0][3][1], ct[1] == (ct[0][1] == "Eq")))
+        elif is_byte0(term, param) and dty in ("u8",):
+            if not neg:
+                for v in vals:
+                    out.append((v, True))
+            else:
+                for v in vals:
+                    out.append((v, False))
+    return out
+
+
+def is_byte0(t, param=2):
+    t = strip_refs(t)
+    while t[0] == "cast":
+        t = strip_refs(t[1])
+    if t[0] == "index" and t[2][:2] == ("const", 0):
+        r = strip_refs(t[1])
+        return r[0] == "param" and r[1] == param
+    if t[0] == "call" and "ops::Index" in t[1] and len(t[2]) == 2 and strip_refs(t[2][1])[:2] == ("const", 0):
+        r = strip_refs(t[2][0])
+        return r[0] == "param" and r[1] == param
+    # *bytes.first()? / bytes.get(0)
+    for x in walk(t):
+        if x[0] == "call" and (x[1].endswith("<impl [T]>::first") or (x[1].endswith("<impl [T]>::get") and len(x[2]) == 2 and strip_refs(x[2][1])[:2] == ("const", 0))):
+            r = strip_refs(x[2][0])
+            if r[0] == "param" and r[1] == param and not any(y[0] == "bin" for y in walk(t)):
+                return True
+    return False
+
+
+def tail_from(t, k=4, param=2):
+    """t denotes bytes[k..] of the input: a RangeFrom index, `get(k..)`, or the rest binding of a slice pattern"""
+    for x in walk(t):
+        if x[0] == "agg" and x[4] and x[4][0][:2] == ("const", k) and (x[2] or "").endswith("RangeFrom"):
+            return True
+        if x[0] == "subslice" and tuple(x[2])[0] == k and strip_refs(x[1])[0] == "param" and strip_refs(x[1])[1] == param:
+            return True
+        if x[0] == "call" and x[1].endswith("<impl [T]>::get") and len(x[2]) == 2:
+            rg = strip_refs(x[2][1])
+            if rg[0] == "agg" and rg[4] and rg[4][0][:2] == ("const", k) and (rg[2] or "").endswith("RangeFrom"):
+                return True
+    return False
+
+
 def lz13_classes(facts, rep, R1, R2):
     for fmtn in (LZ10, LZ13):
         b = facts.ibody(fmtn + "::decompress", combinators=True)
@@ -180,12 +231,10 @@ def lz13_classes(facts, rep, R1, R2):
         rep.inconc(R1, "LZ13 decompress: too many paths")
         return
     table = {}
+    tested = set()
     for p in paths:
-        cls = []
-        for (bb, term, vals, neg, dty) in p.conds:
-            ct = cond_truth((term, vals, neg, dty))
-            if ct and ct[0][0] == "bin" and ct[0][1] == "Eq" and ct[0][3][0] == "const" and strip_refs(ct[0][2])[0] == "index":
-                cls.append((ct[0][3][1], ct[1]))
+        cls = first_byte_tests(p)
+        tested |= set(v for v, h in cls)
         if not cls:
             continue
         dec = [e for e in p.events if e["k"] == "call" and e["callee"] == DEC]
@@ -199,9 +248,11 @@ def lz13_classes(facts, rep, R1, R2):
             continue
 
         def from4(t):
-            return any(x[0] == "agg" and x[4] and x[4][0] == ("const", 4, "usize") for x in walk(t))
+            return tail_from(t, 4) or any(x[0] == "agg" and x[4] and x[4][0] == ("const", 4, "usize") for x in walk(t))
         if key == "stored":
-            ext = [e for e in p.events if e["k"] == "call" and e["callee"] and e["callee"].rsplit("::", 1)[-1] in ("extend_from_slice", "to_vec", "extend")]
+            ext = [e for e in p.events if e["k"] == "call" and e["callee"] and e["callee"].rsplit("::", 1)[-1] in ("extend_from_slice", "to_vec", "extend", "to_owned", "from", "collect")]
+            if p.end != "ret" or is_err_term(p.ret) is not False:
+                continue
             val = "payload after 4 bytes" if (ext and from4(ext[0]["args"][-1]) and not dec) else "?"
         else:
             if len(dec) != 1:
@@ -217,6 +268,11 @@ def lz13_classes(facts, rep, R1, R2):
     for k in ("stored", "wrapper", "bare"):
         if table.get(k) == want[k]:
             rep.ok(R1, {"lz13_first_byte": k, "action": sorted(want[k])[0]})
+        elif not table.get(k) and (tested - {0, 0x13}):
+            rep.violation(R1, b.name, "class:" + k, "LZ13 decompress dispatches on first-byte values %s (specified: 0 = stored, 0x13 = wrapper, anything else = bare stream): no %s class" % (
+                sorted(hex(v) for v in tested), k), "%s:%s" % (b.file, b.line))
+        elif not table.get(k) or any(v.startswith("?") for v in table.get(k, ())):
+            rep.inconc(R1, "LZ13 decompress, %s class: handling not recognised (%s)" % (k, sorted(table.get(k, [])) or "no branch found"))
         else:
             rep.violation(R1, b.name, "class:" + k, "LZ13 decompress, %s class: %s (specified %s)" % (k, sorted(table.get(k, [])) or "no such branch", sorted(want[k])[0]), "%s:%s" % (b.file, b.line))
 
@@ -247,11 +303,29 @@ def decoder_totality(facts, rep, R3, ctx):
     allocs = [v for v in sub.violations if v["rule"] == "R05.3"]
     for a in allocs:
         rep.note("dependency: " + a["msg"])
+    # the public entry points whose (expanded) body hands bytes to the decoder: keyed by the API function, not by
+    # whichever private helper happens to contain the call
     callers = []
-    for b in facts.bodies.values():
+    seen_raw = set()
+    for b in facts.views():
+        if not (b.pub and b.kind == "AssocFn" or b.pub):
+            continue
         for bb, t in b.calls():
             if (callee_names(t)[1] or callee_names(t)[0]) == DEC:
                 callers.append((b, bb, t))
+                seen_raw.add(b.id)
+                break
+    # a non-public caller that no public function absorbed (kept helper): report it under its own name
+    for b in facts.bodies.values():
+        if b.pub or b.kind == "Closure":
+            continue
+        if any((callee_names(t)[1] or callee_names(t)[0]) == DEC for bb, t in b.calls()):
+            used = any(any((callee_names(t2)[1] or "") == b.name for _, t2 in pb.calls()) for pb, _, _ in callers)
+            if not callers or (b.name in facts.known()[0] and not used):
+                for bb, t in b.calls():
+                    if (callee_names(t)[1] or callee_names(t)[0]) == DEC:
+                        callers.append((b, bb, t))
+                        break
     if not callers:
         rep.inconc(R3, "no mila call of nintendo_lz::decompress_arr found")
         return
@@ -289,6 +363,7 @@ def ok_provenance(facts, rep, R5):
             rep.inconc(R5, b.name + ": too many paths")
             continue
         bad = None
+        unk = None
         n = 0
         for p in paths:
             if p.end != "ret" or is_err_term(p.ret) is not False:
@@ -297,16 +372,18 @@ def ok_provenance(facts, rep, R5):
             dec = [e for e in p.events if e["k"] == "call" and e["callee"] == DEC]
             if dec and any(x == dec[0]["val"] for x in walk(p.ret)):
                 continue
-            stored = False
-            for (bb, term, vals, neg, dty) in p.conds:
-                ct = cond_truth((term, vals, neg, dty))
-                if ct and ct[1] and ct[0][0] == "bin" and ct[0][1] == "Eq" and ct[0][3][0] == "const" and ct[0][3][1] == 0 and strip_refs(ct[0][2])[0] == "index" and fmtn == LZ13:
-                    stored = True
+            stored = fmtn == LZ13 and (0, True) in first_byte_tests(p)
             if stored:
                 continue
             conds = "; ".join(fmt(c[1])[:50] for c in p.conds)
+            if fmtn == LZ13 and tail_from(p.ret, 4):
+                # a copy of the payload after the header: the stored form, selected by a test this rule did not decode
+                unk = "a path returns the payload after the header under conditions that are not recognised: [%s]" % conds[:160]
+                continue
             bad = "returns Ok(%s) without running the decoder when [%s]" % (fmt(p.ret[4][0])[:40] if p.ret[0] == "agg" else fmt(p.ret)[:40], conds)
-        if bad:
+        if unk and not bad:
+            rep.inconc(R5, "%s: %s" % (b.name, unk))
+        elif bad:
             rep.violation(R5, b.name, "ok-without-decoder", "%s %s" % (b.name.rsplit("::", 2)[-2] + "::decompress", bad), "%s:%s" % (b.file, b.line))
         elif n:
             rep.ok(R5, {"fn": b.name, "ok_paths": n})
